@@ -428,19 +428,43 @@ def main_check(prop, module, argv):
   # tree (that is what the multi-seed clean runs establish), so if it cannot complete, the code under test behaved in
   # a way the correspondence does not cover: the tie between model and code is broken. Per the brief this is
   # reported as a violation without a concrete failing input (after any concrete violations found before the stop).
+  # One retry with a derived seed separates the two possible causes of a stop: a slip in a random generator of the
+  # harness depends on the draw and does not recur on another exploration (the second run then stands as the run of
+  # record, with the first stop written into the evidence notes); a stop caused by how the code under test behaves
+  # recurs, because it does not depend on the draw, and is reported as the violation described above. The retry is made
+  # only when nothing had been found before the stop.
+  first_stop = None
   try:
     module.run(ctx)
-  except Exception as e:
-    tb = traceback.format_exc()
-    sys.stderr.write(tb)
-    ctx.violation(
-      'correspondence-could-not-complete',
-      f'the correspondence run of {prop} stopped with {type(e).__name__}: {str(e)[:300]} — the implementation behaved in a way '
-      f'the harness/model tie does not cover; the theorems of Flax/Props/{prop}.lean are no longer shown to apply to this code',
-      {'correspondence': f'harness/props/{prop.lower()}.py', 'theorems': f'lean/Flax/Props/{prop}.lean',
-       'exception': type(e).__name__, 'message': str(e)[:1000], 'traceback_tail': tb[-1500:]},
-      concrete=False,
-    )
+  except Exception as e0:
+    if ctx.violations:
+      first_stop = None
+      e, tb = e0, traceback.format_exc()
+    else:
+      first_stop = f'{type(e0).__name__}: {str(e0)[:200]}'
+      sys.stderr.write(traceback.format_exc())
+      retry_seed = (args.seed * 1000003 + 7919) % (2**31)
+      sys.stderr.write(f'[{prop}] the run stopped before finding anything ({first_stop}); retrying once with derived seed {retry_seed}\n')
+      ctx2 = Ctx(prop, args.tier, args.seed)
+      ctx2.rng = random.Random(retry_seed)
+      try:
+        module.run(ctx2)
+        ctx2.notes.append(f'generator_retry: the first exploration (rng seed {args.seed}) stopped with {first_stop}; this evidence is the second exploration (derived rng seed {retry_seed}), which completed')
+        ctx2.extra['generator_retry'] = {'first_stop': first_stop, 'derived_seed': retry_seed}
+        ctx, e, tb = ctx2, None, None
+      except Exception as e1:
+        ctx, e, tb = ctx2, e1, traceback.format_exc()
+    if e is not None:
+      sys.stderr.write(tb)
+      ctx.violation(
+        'correspondence-could-not-complete',
+        f'the correspondence run of {prop} stopped with {type(e).__name__}: {str(e)[:300]} — the implementation behaved in a way '
+        f'the harness/model tie does not cover; the theorems of Flax/Props/{prop}.lean are no longer shown to apply to this code',
+        {'correspondence': f'harness/props/{prop.lower()}.py', 'theorems': f'lean/Flax/Props/{prop}.lean',
+         'exception': type(e).__name__, 'message': str(e)[:1000], 'traceback_tail': tb[-1500:],
+         'first_stop_before_retry': first_stop},
+        concrete=False,
+      )
   try:
     return finish(ctx, aud, spec)
   except Exception:
